@@ -782,7 +782,9 @@ def oracle(c, obs, present=frozenset()):
                 if np.abs(S @ Q[:, a:a + 1] - Q[:, :a + 1] @ H[:a + 1, a:a + 1]).max() > 1e-8 * scale and np.abs(H[:, a]).max() > 0:
                     bad.append(tag + f"column {a}: A q != Q h although the remainder is at rounding level")
                 # afterwards: zero columns
-                if np.abs(H[:, a + 1:]).max(initial=0) > 0 or np.abs(Q[:, a + 2:]).max(initial=0) > 0:
+                # (demanded when the remainder is within the caller's tolerance, norm <= tol/2 * ||A q_0||, or the cap was reached: with
+                #  tol = 0 or a tolerance below the rounding level of the run a remainder of 1e-16 exceeds it and is legitimately normalised)
+                if (sd[a] <= thr or a >= cap) and (np.abs(H[:, a + 1:]).max(initial=0) > 0 or np.abs(Q[:, a + 2:]).max(initial=0) > 0):
                     bad.append(tag + f"non-zero columns after the factorisation closed at step {a + 1} (iteration continued through rounding noise)")
                 # (a zero column is demanded when the remainder is within the tolerance the caller gave, norm <= tol/2; with a tolerance
                 #  below the rounding level of the run the remainder "exceeds the tolerance" and is legitimately normalised)
